@@ -50,10 +50,11 @@ def bool_items(s, n, mode):
         return [~s.bool_var() for _ in range(n)]
     if mode == "and":
         return [s.bool_var() & s.bool_var() for _ in range(n)]
-    if mode == "mixed":
+    if mode.startswith("mixed"):      # "mixed", "mixed1".."mixed3": the pattern variable / True / expression / False, rotated
+        off = int(mode[5:] or 0)
         out = []
         for i in range(n):
-            k = i % 4
+            k = (i + off) % 4
             if k == 0:
                 out.append(s.bool_var())
             elif k == 1:
